@@ -4,7 +4,7 @@
 cd "$(dirname "$0")/.."
 for spec in "$@"; do
   id=${spec%%:*}; props=${spec#*:}; props=${props//,/ }
-  src=seeded/$id; [ -f $src/patch.diff ] || src=/tmp/seed-out-$id
+  src=$PWD/seeded/$id; [ -f $src/patch.diff ] || src=/tmp/seed-out-$id
   wt=/tmp/reseed-$id
   git -C /repo worktree remove --force $wt >/dev/null 2>&1
   git -C /repo worktree add -q --detach $wt HEAD
